@@ -31,6 +31,11 @@ def build_cases(ck: core.Check, rnd: random.Random):
         arg = c["arg"]
         add({"src": "config", "config": c}, pipe_render.render_config_model(c["model"]), target=c["target"], snippets=sn["snippets"], snippets_raw=sn["snippets_raw"], argDefect=("none" if arg == "out_blocked" else arg), outBlock=(arg == "out_blocked"), surrogatepass=True, twice=(json.dumps(c, sort_keys=True) in reruns))
         n_cfg += 1
+    # histories with the model cache on: run, damage the cache file, run again
+    for h in sorted(cfg["cache_histories"], key=lambda h: json.dumps(h, sort_keys=True)):
+        sn = pipe_render.config_snippets(h["target"], "default")
+        c = {"target": h["target"], "snippets": "default", "model": "valid", "arg": "none"}
+        add({"src": "config", "config": c, "cache": h["between"]}, pipe_render.render_config_model("valid"), target=h["target"], snippets=sn["snippets"], twice=True, cacheFlag=True, betweenRuns=h["between"])
     # the same through ``python -m aas_core_codegen`` (package __main__): process-level exit status
     n_mod = 0
     for model in ("valid", "front_error", "syntax_error", "import_error", "infer_error"):
@@ -76,19 +81,25 @@ def bind_pairs(cases, traces, meta, pair_ids):
             ia, ib, iab = (by_case[pair_ids[(r, on)]] for on in (("Alpha",), ("Beta",), ("Alpha", "Beta")))
         except KeyError:
             continue
-        expected = []
+        # multiset: a message reported c times for a single mutation is expected c times more in the double one
+        expected = []  # (flattened message, ordinal of this copy among the copies of that message)
+        copies = {}
         for i in (ia, ib):
             msgs = meta[i].get("msgs") or {}
             stderr = pipe_trace._flat(meta[i]["stderr"])
             for m in msgs:
                 fm = pipe_trace._flat(m).strip()
-                if fm and fm in stderr and fm not in expected:
-                    expected.append(fm)
+                if not fm:
+                    continue
+                for _ in range(stderr.count(fm)):
+                    copies[fm] = copies.get(fm, 0) + 1
+                    expected.append((fm, copies[fm]))
         both = pipe_trace._flat(meta[iab]["stderr"])
         tr = traces[iab]
         tr["obs"]["hasPair"] = True
         tr["obs"]["pairExpected"] = list(range(1, len(expected) + 1))
-        tr["obs"]["pairFound"] = [k + 1 for k, fm in enumerate(expected) if fm in both]
+        tr["obs"]["pairFound"] = [k + 1 for k, (fm, q) in enumerate(expected) if both.count(fm) >= q]
+        expected = ["%s (copy %d)" % e for e in expected]
         meta[iab]["pair_expected"] = expected
         if expected:
             n += 1
